@@ -1018,21 +1018,10 @@ func TestVerifC17(t *testing.T) {
 	}()
 	st := &c17Stats{}
 	c17TouchBound, c17ReviveAlone = 1, r.Thorough()
-	res := mc.Run(r, mc.System{
-		Name:      "migration-commands",
-		New:       func() mc.Instance { return c17New(st) },
-		MaxDepth:  ev.Pick(r, 7, 9),
-		MaxStates: ev.Pick(r, int64(200000), int64(3000000)),
-		Bounds: map[string]any{"tasks": "T1 leader transfer 1->2 (created in WriteFence), T2 replica replace 3->4 (created in AddLearner), T3 leader transfer 1->2 under a fresh id (created in WriteFence)", "channels": 1,
-			"stale_fields": c17StaleFields,
-			"terminal_task_bookkeeping": fmt.Sprintf("claim / adv (all variants) / fail on a terminal task: at most %d per terminal incarnation, generated while another task is active; revive (advance back to Running) while another task is active%s",
-				c17TouchBound, map[bool]string{false: "", true: " and while none is"}[c17ReviveAlone]),
-			"third_task_id": "T3 is created (plain create only) only while the row T1 exists (same transfer under a fresh id); once it exists it has the full alphabet of T1", "seed_meta": "epoch 1/1, replicas=ISR={1,2,3}, leader 1, MinISR 2"},
-		Note: "merging on all task rows + runtime meta row + GetActive and ListActive answers (read back through the metadb API) + cutover bookkeeping; requests are rebuilt from the rows read back, so the canonical state determines every future request",
-	})
-	// Second system: every continuation of the accepted promotion of T2. The promotion is 6 commands
-	// deep, so the first system sees only what one more command does to a promoted task; here the
-	// promoted state is the root and the whole alphabet is explored from it.
+	// System after-promotion: every continuation of the accepted promotion of T2. The promotion is 6
+	// commands deep, so the system migration-commands sees only what one more command (quick) does to a
+	// promoted task; here the promoted state is the root and the whole alphabet is explored from it.
+	// It is small and runs first, so that the time budget of the tier can only cut the large system.
 	st2 := &c17Stats{}
 	start := c17NewAt(&c17Stats{}, c17Promoted).(*c17Inst)
 	t2 := start.v.Tasks["T2"]
@@ -1047,6 +1036,18 @@ func TestVerifC17(t *testing.T) {
 		MaxStates: ev.Pick(r, int64(50000), int64(500000)),
 		Bounds: map[string]any{"root": strings.Join(c17Promoted, " ; "), "alphabet": "as in migration-commands (all three task ids)"},
 		Note:   "same instance, alphabet, oracles and merging as migration-commands; the root is the state after the accepted promotion of T2",
+	})
+	res := mc.Run(r, mc.System{
+		Name:      "migration-commands",
+		New:       func() mc.Instance { return c17New(st) },
+		MaxDepth:  ev.Pick(r, 7, 9),
+		MaxStates: ev.Pick(r, int64(200000), int64(3000000)),
+		Bounds: map[string]any{"tasks": "T1 leader transfer 1->2 (created in WriteFence), T2 replica replace 3->4 (created in AddLearner), T3 leader transfer 1->2 under a fresh id (created in WriteFence)", "channels": 1,
+			"stale_fields": c17StaleFields,
+			"terminal_task_bookkeeping": fmt.Sprintf("claim / adv (all variants) / fail on a terminal task: at most %d per terminal incarnation, generated while another task is active; revive (advance back to Running) while another task is active%s",
+				c17TouchBound, map[bool]string{false: "", true: " and while none is"}[c17ReviveAlone]),
+			"third_task_id": "T3 is created (plain create only) only while the row T1 exists (same transfer under a fresh id); once it exists it has the full alphabet of T1", "seed_meta": "epoch 1/1, replicas=ISR={1,2,3}, leader 1, MinISR 2"},
+		Note: "merging on all task rows + runtime meta row + GetActive and ListActive answers (read back through the metadb API) + cutover bookkeeping; requests are rebuilt from the rows read back, so the canonical state determines every future request",
 	})
 	if r.Replay() != nil {
 		return
